@@ -560,6 +560,42 @@ func vfC19Run(c vfC19Case, ctx *vfCtx) *vfViolation {
 	for id := range tm {
 		union[id] = true
 	}
+	// "start from the defaults and change a field" must not change anybody else's configuration: a
+	// fusion built with a nil config (and the default fusion) keeps the documented defaults 1 / 1 / 60
+	if dc := DefaultFusionConfig(); dc != nil {
+		dc.VectorWeight, dc.TextWeight, dc.K = 7, 0.125, 1
+	}
+	if d2 := DefaultFusionConfig(); d2 == nil || d2.VectorWeight != 1 || d2.TextWeight != 1 || d2.K != 60 {
+		return vfFail("DefaultFusionConfig() no longer returns the defaults after a caller changed the object it got earlier: %+v", d2)
+	}
+	for _, kind := range []FusionKind{WeightedSumFusion, ReciprocalRankFusion} {
+		fd, err := NewFusion(kind, nil)
+		if err != nil || fd == nil {
+			return vfFail("NewFusion(%s, nil): %v", kind, err)
+		}
+		if kind == ReciprocalRankFusion && (vfHasTies64(vm) || vfHasTies64(tm)) {
+			continue // ranks inside a tie group are arbitrary: two runs may legitimately differ
+		}
+		fe, _ := NewFusion(kind, &FusionConfig{VectorWeight: 1, TextWeight: 1, K: 60})
+		a, b := fd.Combine(vm, tm), fe.Combine(vm, tm)
+		if len(a) != len(b) {
+			return vfFail("%s fusion with the default configuration returns %d ids, with explicit 1 / 1 / 60 it returns %d", kind, len(a), len(b))
+		}
+		for id, x := range b {
+			if y, ok := a[id]; !ok || !(x == y || math.IsNaN(x) && math.IsNaN(y)) {
+				return vfFail("%s fusion with the default configuration gives id %d the score %v, with explicit 1 / 1 / 60 it gets %v (after a caller modified a config obtained from DefaultFusionConfig)", kind, id, y, x)
+			}
+		}
+	}
+	if fd := DefaultFusion(); fd != nil && !(fd.Kind() == ReciprocalRankFusion && (vfHasTies64(vm) || vfHasTies64(tm))) {
+		fe, _ := NewFusion(fd.Kind(), &FusionConfig{VectorWeight: 1, TextWeight: 1, K: 60})
+		a, b := fd.Combine(vm, tm), fe.Combine(vm, tm)
+		for id, x := range b {
+			if y, ok := a[id]; !ok || len(a) != len(b) || !(x == y || math.IsNaN(x) && math.IsNaN(y)) {
+				return vfFail("DefaultFusion() gives id %d the score %v, the documented defaults give %v", id, y, x)
+			}
+		}
+	}
 	for _, kind := range []FusionKind{WeightedSumFusion, ReciprocalRankFusion, MaxFusion, MinFusion} {
 		f, err := NewFusion(kind, cfg)
 		if err != nil {
@@ -731,6 +767,18 @@ func vfC19Run(c vfC19Case, ctx *vfCtx) *vfViolation {
 		}
 	}
 	return nil
+}
+
+// vfHasTies64: two ids with the same score, or a NaN (unordered), in a score map
+func vfHasTies64(m map[uint32]float64) bool {
+	seen := map[float64]bool{}
+	for _, x := range m {
+		if math.IsNaN(x) || seen[x] {
+			return true
+		}
+		seen[x] = true
+	}
+	return false
 }
 
 func TestVerif_C19(t *testing.T) { vfCheck(t, "C19", vfC19Gen, vfC19Run) }
